@@ -11,8 +11,11 @@ import time
 from . import _deps
 
 VERIF = _deps.VERIF
-EVIDENCE_DIR = os.path.join(VERIF, "evidence")
-REPLAY_DIR = os.path.join(VERIF, "replays")
+# SMV_OUT=<dir> redirects evidence and replays (used when the checks are pointed at a scratch copy
+# with a seeded change, so that committed evidence is never overwritten by such a run)
+_OUT = os.environ.get("SMV_OUT")
+EVIDENCE_DIR = os.path.join(_OUT, "evidence") if _OUT else os.path.join(VERIF, "evidence")
+REPLAY_DIR = os.path.join(_OUT, "replays") if _OUT else os.path.join(VERIF, "replays")
 KNOWN_FILE = os.path.join(VERIF, "known_findings.json")
 WORKERS = int(os.environ.get("SMV_WORKERS", str(min(16, os.cpu_count() or 1))))
 
